@@ -3,4 +3,4 @@ From CA Require Import Model.Support Model.Formats Model.CharCounter Model.Listi
 Extraction "../ocaml/gen/listing_model.ml" support_types
   format_annotated format_annotated_gen format_tcgame format_tcgame_gen format_addrspan
   format_default format_mesen_mlb listed_entries
-  rows_ok_annotated rows_ok_tcgame rows_ok_addrspan symbols_ok_default symbols_ok_mesen expected_symbols.
+  rows_ok_annotated rows_ok_tcgame rows_ok_addrspan symbols_ok_default symbols_ok_mesen expected_symbols addresses_ok.
